@@ -73,7 +73,11 @@ class CenteredDifferences(BaseGradientApproximator):
 
         n_perturbations_ = int(n_perturbations / 2)
         return [
-            ((output_plus - output_minus) / norm(input_plus - input_minus)).real
+            (
+                (output_plus - output_minus)
+                # Both perturbations vanish for a component with equal bounds.
+                / (norm(input_plus - input_minus) or 1.0)
+            ).real
             for input_plus, output_plus, input_minus, output_minus in zip(
                 input_perturbations[:n_perturbations_],
                 output_perturbations[:n_perturbations_],
@@ -95,7 +99,8 @@ class CenteredDifferences(BaseGradientApproximator):
         return [
             (
                 (f(input_plus, **kwargs) - f(input_minus, **kwargs))
-                / norm(input_plus - input_minus)
+                # Both perturbations vanish for a component with equal bounds.
+                / (norm(input_plus - input_minus) or 1.0)
             ).real
             for input_plus, input_minus in zip(
                 input_perturbations[:n_perturbations_],
@@ -236,15 +241,17 @@ class CenteredDifferences(BaseGradientApproximator):
             lower_bounds = normalize_vect(lower_bounds)
             upper_bounds = normalize_vect(upper_bounds)
 
+        input_indices = list(input_indices)
         steps_plus = where(
-            input_perturbations[input_indices, range(n_indices)] >= upper_bounds,
+            input_perturbations[input_indices, range(n_indices)] + step
+            > upper_bounds[input_indices],
             0,
             step,
         )
         input_perturbations[input_indices, range(n_indices)] += steps_plus
         steps_minus = where(
-            input_perturbations[input_indices, range(n_indices, 2 * n_indices)]
-            <= lower_bounds,
+            input_perturbations[input_indices, range(n_indices, 2 * n_indices)] - step
+            < lower_bounds[input_indices],
             0,
             -step,
         )
